@@ -19,18 +19,11 @@ fn run_out(bin: &str, args: &[String], stdin: &str) -> (bool, String) {
 }
 
 fn run_full(bin: &str, args: &[String], stdin: &str) -> (bool, String, String) {
-    let mut child = match Command::new(bin).args(args).stdin(Stdio::piped()).stdout(Stdio::piped()).stderr(Stdio::piped()).spawn() {
-        Ok(c) => c,
-        Err(_) => return (false, String::new(), String::new()),
-    };
-    {
-        let mut si = child.stdin.take().unwrap();
-        let _ = si.write_all(stdin.as_bytes());
-    }
-    let out = child.wait_with_output().unwrap();
-    let err = String::from_utf8_lossy(&out.stderr).to_string();
+    let mut cmd = Command::new(bin);
+    cmd.args(args);
+    let (ok, out, err) = crate::progress::run_tool(cmd, Some(stdin));
     let tail: String = err.lines().rev().take(3).collect::<Vec<_>>().join(" | ");
-    (out.status.success(), String::from_utf8_lossy(&out.stdout).to_string(), tail)
+    (ok, out, tail)
 }
 
 pub fn run(a: &HashMap<String, String>) -> i32 {
